@@ -190,6 +190,31 @@ def Stmt.mentions : Stmt → Nat → Bool
   | .ite c t e, x => c.mentions x || t.mentions x || e.mentions x
   | .seq s t, x => s.mentions x || t.mentions x
 
+def Expr.readsAttr : Expr → Nat → Bool
+  | .param _, _ => false
+  | .attr a, x => a == x
+  | .const _, _ => false
+  | .app _ e, x => e.readsAttr x
+
+def Cond.readsAttr : Cond → Nat → Bool
+  | .hasParam _, _ => false
+  | .truthy e, x => e.readsAttr x
+  | .eqStr e _, x => e.readsAttr x
+  | .isNone e, x => e.readsAttr x
+  | .lenEq e _, x => e.readsAttr x
+  | .lenGt e _, x => e.readsAttr x
+  | .not c, x => c.readsAttr x
+  | .and c d, x => c.readsAttr x || d.readsAttr x
+  | .or c d, x => c.readsAttr x || d.readsAttr x
+
+/-- the statement reads settings attribute `x` (in a guard or in an assigned value) -/
+def Stmt.readsAttr : Stmt → Nat → Bool
+  | .skip, _ => false
+  | .set _ e, x => e.readsAttr x
+  | .setParam _ e, x => e.readsAttr x
+  | .ite c t e, x => c.readsAttr x || t.readsAttr x || e.readsAttr x
+  | .seq s t, x => s.readsAttr x || t.readsAttr x
+
 /-- `if "k" in params: self._settings.set_a(params["k"])` ↦ `(a, k)` -/
 def Stmt.simpleBinding? : Stmt → Option (Nat × Nat)
   | .ite (.hasParam k) (.set a (.param k')) .skip => if k = k' then some (a, k) else Option.none
@@ -401,16 +426,38 @@ def Table.targetsOf (T : Table) (t : Nat) : List Nat :=
 
 def Table.progGuarded (T : Table) : Bool := T.prog.all Stmt.guarded
 
+/-- the statement neither mentions a parameter key of `K` nor reads or writes an attribute of `A` -/
+def Stmt.clean (s : Stmt) (K A : List Nat) : Bool :=
+  K.all (fun k => !s.mentions k) && A.all (fun a => !s.readsAttr a && !s.writesAttr a)
+
+/-- the statement is the simple binding of an attribute of `A` to a parameter key of `K` -/
+def Stmt.bindingIn (s : Stmt) (K A : List Nat) : Bool :=
+  match s.simpleBinding? with
+  | some (a, k) => K.contains k && A.contains a
+  | none => false
+
+/-- apart from simple bindings `A ← K`, the program does not touch the parameter keys `K` and the attributes `A` -/
+def cleanOrBinding (prog : List Stmt) (K A : List Nat) : Bool :=
+  prog.all (fun s => s.clean K A || s.bindingIn K A)
+
+/-- the attributes simply bound to a parameter key of conf key `t` -/
+def Table.boundAttrs (T : Table) (t : Nat) : List Nat :=
+  T.prog.filterMap (fun s => match s.simpleBinding? with
+    | some (a, k) => if (T.targetsOf t).contains k then some a else none
+    | none => none)
+
 /-- conf key `t` is *isolated*: each parameter key its branch can write is mentioned by exactly one
-statement of `_set_settings`, that statement is a simple binding, and no other branch writes the key.
-The whole effect of an isolated tag is "its attributes receive its parsed values". -/
+statement of `_set_settings`, that statement is a simple binding, no other branch writes the key, and
+no other statement reads or writes the bound attributes.
+The whole effect of an isolated tag is "its attributes receive its parsed values" (`isolated_tag_frame`). -/
 def Table.tagIsolated (T : Table) (t : Nat) : Bool :=
   !(T.targetsOf t).isEmpty &&
   (T.targetsOf t).all (fun k =>
     (T.prog.filter (fun s => s.mentions k)).length == 1 &&
     T.prog.any (fun s => match s.simpleBinding? with
       | some (a, k') => k' == k && T.isSimple a k t
-      | none => false))
+      | none => false)) &&
+  cleanOrBinding T.prog (T.targetsOf t) (T.boundAttrs t)
 
 /-- all (attribute, parameter key, conf key) bindings of the table that are simple -/
 def Table.simpleBindings (T : Table) : List (Nat × Nat × Nat) :=
